@@ -266,6 +266,11 @@ def run_coq_shards(name, header, items, checker, item_type=None, shard=300, jobs
     def one(kf):
         k, fn = kf
         rc, out = sh(f"ulimit -s unlimited; timeout {timeout} coqc -noglob -R {COQ} AV {fn}", timeout=timeout + 20)
+        if rc == 124 or (rc != 0 and not out.strip()):
+            # the machine is loaded (several checks in parallel): evaluate this shard once more, alone in its slot, with more time
+            rc, out = sh(f"ulimit -s unlimited; timeout {timeout * 4} coqc -noglob -R {COQ} AV {fn}", timeout=timeout * 4 + 20)
+            if rc == 124:
+                out += f"\n[timeout after {timeout * 4}s]"
         base = fn[:-2]
         for ext in (".vo", ".vos", ".vok", ".glob"):        # only the printed answer is used: the disk is small
             try:
